@@ -29,6 +29,10 @@ Engine E1.  Layers (each enumerated completely up to the tier bound):
          edge doubled (each edge), every other ultrametric pattern of the shape set directly
          and through harness-set ages + set_edge_lengths_from_node_ages, two sibling lengths
          swapped (each pair)}: g must pass the same check as on a freshly built tree.
+  clamp  set_edge_lengths_from_node_ages on non-monotone ages: ages from force-min / force-max
+         on every {1,2} length assignment, and every hand-set age vector over {0,1,2} per node
+         (leaves {0,1} above the full-alphabet bound), x minimum_edge_length in {default, 0,
+         0.0, 0.5, None} x error_on_negative_edge_lengths: lengths, ValueError, root edge, ages.
 
 Reference: plain Python on snapshots (this file); Fractions decide acceptance/rejection.
 """
@@ -60,6 +64,7 @@ ASSUMPTIONS = [
     "with the check disabled (None / False / negative) on a non-ultrametric tree only non-rejection is demanded, not the age values",
     "Colless (binary trees only; 'max' needs >= 3 leaves), gamma (binary, >= 3 leaves, ultrametric), treeness (all lengths present, positive total) are driven inside their documented domains only",
     "published definitions: Shao & Sokal 1990 (B1), Colless 1982 / Heard 1992 (max), Blum, Francois & Janson 2006 (Colless yule/pda), Sackin 1972 / Blum & Francois 2005 (yule/pda), Kirkpatrick & Slatkin 1993 (N-bar), Phillips & Penny 2003 (treeness), Pybus & Harvey 2000 (gamma)",
+    "set_edge_lengths_from_node_ages on non-monotone ages follows its docstring read in the order of the code: length = parent.age - age, values below minimum_edge_length (not None; default 0.0) become minimum_edge_length, then ValueError iff error_on_negative_edge_lengths and a resulting length < 0; after a ValueError only the root edge and the ages are inspected",
     "values are compared exactly on dyadic inputs, with relative tolerance 1e-9 otherwise and for the real-valued statistics",
 ]
 MANIFEST = {
@@ -104,10 +109,12 @@ def bounds(tier):
     if tier == "quick":
         return {"ult_max_leaves": 5, "pert_max_leaves": 5, "pert_all_order_variants_up_to": 4,
                 "gen_max_leaves": 4, "stat_max_leaves": 6, "all_orders_up_to": 4, "hist_max_leaves": 4, "pure_max_leaves": 4,
+                "clamp_max_leaves": 4, "clamp_full_age_alphabet_up_to": 4,
                 "height_maps": sorted(HMAPS), "precisions": [repr(p) for p in PREC_ALL],
                 "deltas": [d for d, _ in DELTAS], "gen_alphabets": {"n<=3": [0, 1, 2], "n>=4": [[1, 2], [0, 1]]}}
     return {"ult_max_leaves": 6, "pert_max_leaves": 6, "pert_all_order_variants_up_to": 5,
             "gen_max_leaves": 5, "stat_max_leaves": 7, "all_orders_up_to": 4, "hist_max_leaves": 5, "pure_max_leaves": 5,
+            "clamp_max_leaves": 5, "clamp_full_age_alphabet_up_to": 4,
             "height_maps": sorted(HMAPS), "precisions": [repr(p) for p in PREC_ALL],
             "deltas": [d for d, _ in DELTAS], "gen_alphabets": {"n<=3": [0, 1, 2], "n>=4": [[1, 2], [0, 1]]}}
 
@@ -134,6 +141,8 @@ def chunks(tier):
         add("hist", n, 30)
     for n in range(2, b["pure_max_leaves"] + 1):
         add("pure", n, 30 if n <= 3 else (1 if n == 4 else 2))
+    for n in range(2, b["clamp_max_leaves"] + 1):
+        add("clamp", n, 30 if n <= 3 else 1)
     return out
 
 
@@ -1389,7 +1398,118 @@ def run_pure(chunk, ctx):
                             "second_calls": [g_name(g) for g in second_calls(s1, n)]}, 1)
 
 
-RUNNERS = {"ult": run_ult, "pert": run_pert, "gen": run_gen, "part": run_part, "stat": run_stat, "hist": run_hist, "pure": run_pure}
+# ---------------------------------------------------------------------------
+# clamp layer: set_edge_lengths_from_node_ages on non-monotone ages (child older than parent)
+
+CLAMP_MINS = [DEFAULT, 0, 0.0, 0.5, None]
+
+
+def preorder_paths(sn, path=()):
+    out = [path]
+    for i, c in enumerate(sn[3]):
+        out.extend(preorder_paths(c, path + (i,)))
+    return out
+
+
+def check_clamp(case, ctx):
+    """Docstring of set_edge_lengths_from_node_ages: every non-root edge length becomes
+    parent.age - node.age, values below minimum_edge_length (when it is not None; default 0.0)
+    become minimum_edge_length; with error_on_negative_edge_lengths a ValueError iff a resulting
+    length (after the clamp) is negative; the root edge and the ages are not touched."""
+    sn = tup(case["tree"])
+    mn, err = case["min"], case["err"]
+    tree = mktree(sn)
+    nodes = dict((path, nd) for nd, path in walk(tree, sn))
+    order = preorder_paths(sn)
+    if case.get("ages") is not None:
+        for path, a in zip(order, case["ages"]):
+            nodes[path].age = a
+    else:
+        kw = {"is_force_min_age": True} if case["ages_from"] == "force-min" else {"is_force_max_age": True}
+        st, val = call(lambda: tree.calc_node_ages(ultrametricity_precision=False, **kw))
+        if st == "exc":
+            return          # judged by check_ages
+    age = dict((path, nodes[path].age) for path in order)
+    root_len = nodes[()]._edge.length
+    kw = {}
+    is_default = isinstance(mn, str)
+    if not is_default:
+        kw["minimum_edge_length"] = mn
+    if err:
+        kw["error_on_negative_edge_lengths"] = True
+    m = 0.0 if is_default else mn
+    want = {}
+    for path in order:
+        if path:
+            raw = age[path[:-1]] - age[path]
+            want[path] = m if (m is not None and raw < m) else raw
+    expect_error = err and any(v < 0 for v in want.values())
+    sig = "set_edge_lengths_from_node_ages|clamp|min=%r|err=%r|" % (mn, err)
+    desc = "set_edge_lengths_from_node_ages(%s) on %s with ages (pre-order) %s" % (
+        ", ".join("%s=%r" % kv for kv in sorted(kw.items())), ref.to_newick(sn, False), [age[pth] for pth in order])
+    st, val = call(lambda: tree.set_edge_lengths_from_node_ages(**kw))
+    if st == "exc":
+        if not isinstance(val, ValueError) or isinstance(val, UltrametricityError):
+            ctx.violation(sig + "exception|%s" % type(val).__name__, "%s raised %r" % (desc, val), case)
+        elif not expect_error:
+            ctx.violation(sig + "unexpected-ValueError", "%s raised %r; no resulting length is negative: %s" % (
+                desc, val, [want[pth] for pth in order if pth]), case)
+    elif expect_error:
+        ctx.violation(sig + "missing-ValueError", "%s returned although a resulting length is negative: %s" % (
+            desc, [want[pth] for pth in order if pth]), case)
+    else:
+        for path in order:
+            if path and not same(nodes[path]._edge.length, want[path], True):
+                ctx.violation(sig + "lengths", "%s: edge above node %s is %r, documented %r (parent age %r - age %r, minimum %r)" % (
+                    desc, list(path), nodes[path]._edge.length, want[path], age[path[:-1]], age[path], m), case)
+                break
+    if not same(nodes[()]._edge.length, root_len, True):
+        ctx.violation(sig + "root-edge-changed", "%s: root edge length %r -> %r" % (desc, root_len, nodes[()]._edge.length), case)
+    for path in order:
+        a = nodes[path].age
+        if a != age[path] or type(a) is not type(age[path]):
+            ctx.violation(sig + "ages-changed", "%s: age of node %s changed from %r to %r" % (desc, list(path), age[path], a), case)
+            break
+
+
+def run_clamp(chunk, ctx):
+    n, tier = chunk["n"], chunk["tier"]
+    b = bounds(tier)
+    shapes = U.shapes(n)
+    nt = _nontriv(n)
+    combos = [(mn, err) for mn in CLAMP_MINS for err in (False, True)]
+    for si in range(chunk["lo"], chunk["hi"]):
+        shape = shapes[si]
+        # (a) ages assigned by the forcing options on every {1,2} length assignment
+        for lens in itertools.product((1.0, 2.0), repeat=count_nonroot(shape)):
+            sn = lens_snap(shape, lens, 0.25)
+            for src in ("force-min", "force-max"):
+                ctx.count("clamp_forced_age_trees")
+                for mn, err in combos:
+                    ctx.case(("clamp", sn, src, repr(mn), err), nt)
+                    ctx.count("clamp_calls")
+                    check_clamp({"kind": "clamp", "tree": sn, "ages": None, "ages_from": src, "min": mn, "err": err}, ctx)
+        # (b) hand-set ages, child older than parent included
+        sn = lens_snap(shape, [1.0] * count_nonroot(shape), 0.25)
+        order = preorder_paths(sn)
+        f = facts(sn)
+        full = n <= b["clamp_full_age_alphabet_up_to"]
+        alph = [(0, 1, 2) if (full or f[path][2]) else (0, 1) for path in order]
+        nvec = 0
+        for ages in itertools.product(*alph):
+            nvec += 1
+            ctx.count("clamp_hand_set_age_vectors")
+            for mn, err in combos:
+                ctx.case(("clamp", sn, ages, repr(mn), err), nt)
+                ctx.count("clamp_calls")
+                check_clamp({"kind": "clamp", "tree": sn, "ages": list(ages), "ages_from": None, "min": mn, "err": err}, ctx)
+        if si == chunk["lo"] and n >= 3:
+            ctx.sample({"layer": "clamp", "shape": ref.to_newick(sn, False), "hand_set_age_vectors": nvec,
+                        "age_alphabets_preorder": [list(a) for a in alph], "minimum_edge_length": [repr(x) for x in CLAMP_MINS],
+                        "error_on_negative_edge_lengths": [False, True]}, 1)
+
+
+RUNNERS = {"ult": run_ult, "pert": run_pert, "gen": run_gen, "part": run_part, "stat": run_stat, "hist": run_hist, "pure": run_pure, "clamp": run_clamp}
 
 
 def run_chunk(chunk, ctx):
@@ -1399,7 +1519,8 @@ def run_chunk(chunk, ctx):
 
 CHECKS = {"ages": check_ages, "resolve": check_resolve, "setlen": check_setlen, "lineages": check_lineages,
           "treeness": check_treeness, "gamma": check_gamma, "gamma-history": check_gamma_history,
-          "stats": check_stats, "plen": check_length_partial, "both": check_both_force, "history": check_history}
+          "stats": check_stats, "plen": check_length_partial, "both": check_both_force, "history": check_history,
+          "clamp": check_clamp}
 
 
 def replay(case, ctx):
